@@ -4,7 +4,8 @@ import NmVerif.Simd.Enum
 import NmVerif.Simd.Eval
 /-
   Driver handler of C12: answers the harness protocol of harness/h_c12_*.cpp with the MODEL
-  (Simd/Loop.lean, Simd/Enum.lean, Simd/Eval.lean) on integer data.  The packed intrinsics are
+  (Simd/Loop.lean, Simd/Enum.lean, Simd/Eval.lean) on integer data.  Requests reach the driver with the
+  prefix `c12.` (`mreq` of lib/props/c12.py): `reduce`, `outer`, `matmul` are also op names of other properties.  The packed intrinsics are
   instantiated lane-wise (`xs.map f`, `List.zipWith f`): that is the assumption `LaneWise*` of Props/C12.lean.
 -/
 namespace NmVerif.Driver.C12
@@ -42,14 +43,14 @@ def arrOf (a : Args) (shapeK layoutK dataK : String) : Option (NDA Int) := do
 
 def handle : Handler := fun kind a =>
   match kind with
-  | "unary" => orBad do
+  | "c12.unary" => orBad do
       let f ← (a.get? "op").bind unaryF
       let lanes ← a.nat "lanes"
       let arr ← arrOf a "shape" "layout" "data"
       match simdUnary lanes (·.map f) f arr (List.replicate (prod arr.shape) 0) with
       | some out => pure (okVals (fmtNats arr.shape) out)
       | none => pure "ub"
-  | "binary" => orBad do
+  | "c12.binary" => orBad do
       let f ← (a.get? "op").bind binaryF
       let N ← a.nat "lanes"
       let l ← arrOf a "lshape" "llayout" "ldata"
@@ -67,7 +68,7 @@ def handle : Handler := fun kind a =>
           | some out => pure (okVals (fmtNats [R, C]) out)
           | none => pure "ub"
         | _, _ => pure "unsupported"
-  | "outer" => orBad do
+  | "c12.outer" => orBad do
       let f ← (a.get? "op").bind binaryF
       let N ← a.nat "lanes"
       let l ← arrOf a "lshape" "llayout" "ldata"
@@ -76,7 +77,7 @@ def handle : Handler := fun kind a =>
       match simdOuter N (List.zipWith f) f l.data r.data os l.shape r.shape (List.replicate (prod os) 0) with
       | some out => pure (okVals (fmtNats os) out)
       | none => pure "ub"
-  | "reduce" => orBad do
+  | "c12.reduce" => orBad do
       let opn ← a.get? "op"
       let f ← binaryF opn
       let N ← a.nat "lanes"
@@ -95,7 +96,7 @@ def handle : Handler := fun kind a =>
         match simdReduceAxis N (List.zipWith f) f 0 (identityOf opn) arr ax with
         | some out => pure (okVals (fmtNats outShape) out)
         | none => pure "ub"
-  | "matmul" => orBad do
+  | "c12.matmul" => orBad do
       let N ← a.nat "lanes"
       let ls ← a.nats "lshape"
       let rs ← a.nats "rshape"
@@ -108,7 +109,7 @@ def handle : Handler := fun kind a =>
         | none => pure "ub"
       | _, _ => none
   -- pure enumerators, tuple by tuple
-  | "enum_binary2d" => orBad do
+  | "c12.enum_binary2d" => orBad do
       let N ← a.nat "lanes"
       let out ← a.nats "out"
       let l ← a.nats "lhs"
@@ -121,7 +122,7 @@ def handle : Handler := fun kind a =>
           fmtT o ++ fmtT x ++ fmtT y)
         pure s!"ok n={n} t={fmtIntLists rows}"
       | _, _, _ => none
-  | "enum_reduce" => orBad do
+  | "c12.enum_reduce" => orBad do
       let N ← a.nat "lanes"
       let out ← a.nats "out"
       let inp ← a.nats "inp"
@@ -132,7 +133,7 @@ def handle : Handler := fun kind a =>
           let (o, x) ← reductionAt kind N out inp axis i
           pure (fmtT o ++ fmtT x))
       pure s!"ok n={n} t={fmtIntLists rows}"
-  | "enum_outer" => orBad do
+  | "c12.enum_outer" => orBad do
       let N ← a.nat "lanes"
       let l ← a.nats "lhs"
       let r ← a.nats "rhs"
@@ -142,7 +143,7 @@ def handle : Handler := fun kind a =>
           let (o, x, y) := outerAt N os l r i
           fmtT o ++ fmtT x ++ fmtT y)
       pure s!"ok n={n} t={fmtIntLists rows}"
-  | "enum_matmul" => orBad do
+  | "c12.enum_matmul" => orBad do
       let N ← a.nat "lanes"
       let l ← a.nats "lhs"
       let r ← a.nats "rhs"
